@@ -2264,6 +2264,10 @@ async fn handle_packet(
     if should_drop_packet() {
         return;
     }
+    if packet.is_empty() {
+        // e.g. a TURN Data indication / ChannelData carrying zero bytes
+        return;
+    }
     inner.last_received_nanos.store(
         inner.created_at.elapsed().as_nanos() as u64,
         Ordering::Relaxed,
